@@ -532,7 +532,13 @@ def format_descriptor(W):
     # timestamp decoder
     gc = W.impl_method("sqlite", "get_client")
     d["timestamp_decoder"] = None
-    for cb in W.prog.closures_of(gc):
+    ss_, _un, _uc, _inst = S.sql_world(W)
+    mappers = [gc] + list(W.prog.closures_of(gc)) + [x.closure for x in ss_ if x.body.key == gc.key and x.closure is not None]
+    seen_ = set()
+    for cb in mappers:
+        if cb.key in seen_:
+            continue
+        seen_.add(cb.key)
         for bb, t in cb.calls():
             if t["callee"].get("def") == "chrono::offset::TimeZone::timestamp_opt":
                 a = W.prov(cb).arg_terms(bb)
